@@ -458,6 +458,23 @@ pub mod commit_overlay {
 			}
 		}
 
+		/// Like `clean_overlay`, for a commit that is re-queued: its changes are still needed.
+		pub fn clean_overlay_keep_changes(
+			&self,
+			overlay: &mut BTreeCommitOverlay,
+			record_id: u64,
+		) {
+			use std::collections::btree_map::Entry;
+			for change in self.changes.iter() {
+				let key = change.key().clone();
+				if let Entry::Occupied(e) = overlay.entry(key) {
+					if e.get().0 == record_id {
+						e.remove_entry();
+					}
+				}
+			}
+		}
+
 		pub fn write_plan(
 			&mut self,
 			btree: &BTreeTable,
